@@ -60,10 +60,11 @@ type histEnv struct {
 	baseSub, bakSub     string
 	baseStack, bakStack string
 	clock               int64
-	faults              map[string]int // signature -> occurrence to fail
+	faults              map[string]map[int]bool // signature -> occurrences to fail
 	seen                map[string]int
 	mu                  sync.Mutex
 	onPrim              func(rec CallRec)
+	fired               bool // the injected fault has fired (reset by the caller per step)
 }
 
 func sigKey(fsTag, method string, args []string) string {
@@ -110,7 +111,8 @@ func (e *histEnv) hook(r CallRec) error {
 	k := sigKey(r.FS, r.Method, args)
 	occ := e.seen[k]
 	e.seen[k] = occ + 1
-	if want, ok := e.faults[k]; ok && want == occ {
+	if e.faults[k][occ] {
+		e.fired = true
 		return errInjected
 	}
 	return nil
@@ -121,7 +123,7 @@ func newHistEnv(c *HistCase) (*histEnv, error) {
 	if err != nil {
 		return nil, err
 	}
-	e := &histEnv{rc: rc, faults: map[string]int{}, seen: map[string]int{}}
+	e := &histEnv{rc: rc, faults: map[string]map[int]bool{}, seen: map[string]int{}}
 	osfs := backupfs.NewOSFS()
 	switch c.Layering {
 	case "nested":
@@ -166,7 +168,11 @@ func newHistEnv(c *HistCase) (*histEnv, error) {
 	e.baseSpy.Hook = e.hook
 	e.backupSpy.Hook = e.hook
 	for _, f := range c.Faults {
-		e.faults[sigKey(f.FS, f.Method, f.Args)] = f.Occ
+		k := sigKey(f.FS, f.Method, f.Args)
+		if e.faults[k] == nil {
+			e.faults[k] = map[int]bool{}
+		}
+		e.faults[k][f.Occ] = true
 	}
 	e.bfs = backupfs.NewBackupFS(e.baseSpy, e.backupSpy)
 	rc.MarkStart()
@@ -478,6 +484,7 @@ func runHistCase(c *HistCase, prop string) (*caseOut, error) {
 		return nil, err
 	}
 	defer e.rc.Close()
+	fullTrace := prop == "C08" || prop == "C09"
 	id := fmt.Sprintf("hist#%p", c)
 	for _, l := range e.modelInit(c) {
 		out.b.Add(id+" init", l, "ok")
@@ -497,6 +504,7 @@ func runHistCase(c *HistCase, prop string) (*caseOut, error) {
 	out.b.Add(id+" init-base", line("os.tree", modelBase), line(e.rc.Dump(e.baseSub)...))
 	e.trace(false)
 
+	faultStep := -1
 	var s0, b0 []string
 	inTx := false
 	var planted []string   // C13: (path, content) pairs planted in the backup directory
@@ -562,6 +570,11 @@ func runHistCase(c *HistCase, prop string) (*caseOut, error) {
 			for _, l := range e.labelsBefore(op) {
 				out.labels[l] = true
 			}
+			var baseBefore []string
+			if len(c.Faults) > 0 {
+				baseBefore = e.rc.Dump(e.baseSub)
+				e.fired = false
+			}
 			var want16 string
 			if prop == "C16" {
 				want16 = e.osParents(op)
@@ -601,11 +614,36 @@ func runHistCase(c *HistCase, prop string) (*caseOut, error) {
 				}
 			}
 			out.b.Add(tag, bfsOpLine(op), line(res...))
+			if len(c.Faults) > 0 && e.fired {
+				// C08: the fault fired while this operation was taking its backup
+				faultStep = i
+				out.count("fault.fired-in-op." + op.K)
+				if res[0] == "ok" {
+					viol("C08", fmt.Sprintf("%v succeeded although a backup primitive failed (%v)", op, c.Faults))
+				}
+				if op.K != "removeall" && !dumpEqual(baseBefore, e.rc.Dump(e.baseSub)) {
+					viol("C08", fmt.Sprintf("%v modified the base although its backup failed: %s", op, dumpDiff(baseBefore, e.rc.Dump(e.baseSub))))
+				}
+			}
 			for _, l := range e.labelsAfter(op) {
 				out.labels[l] = true
 			}
 		case st.Do == "rollback":
+			e.fired = false
 			rerr := e.bfs.Rollback()
+			if len(c.Faults) > 0 && !skipOracle {
+				s1f := blankDirTimes(e.rc.Dump(e.baseSub))
+				if e.fired {
+					// C09: a primitive failed during this Rollback
+					out.count("fault.fired-in-rollback")
+					if rerr == nil && !dumpEqual(s0, s1f) {
+						viol("C09", fmt.Sprintf("Rollback returned nil although a primitive failed (%v) and the base is not restored: %s", c.Faults, dumpDiff(s0, s1f)))
+					}
+				} else if faultStep >= 0 && !dumpEqual(s0, s1f) {
+					// C08: the earlier failed backup must not corrupt the transaction
+					viol("C08", fmt.Sprintf("after a failed backup (%v) Rollback did not restore the base: %s", c.Faults, dumpDiff(s0, s1f)))
+				}
+			}
 			res := []string{"ok"}
 			if rerr != nil {
 				res = []string{"err", "rollbackFailed"}
@@ -697,7 +735,13 @@ func runHistCase(c *HistCase, prop string) (*caseOut, error) {
 			out.b.Add(tag, line("bfs.op", "force", st.Arg[0]), line(res...))
 			out.count("force." + res[0])
 		}
-		out.b.Add(tag+" trace", line("bfs.trace", "mut"), line(e.trace(true)...))
+		if len(c.Faults) > 0 || fullTrace {
+			evs := e.trace(false)
+			sort.Strings(evs)
+			out.b.Add(tag+" trace", line("bfs.trace", "sorted"), line(evs...))
+		} else {
+			out.b.Add(tag+" trace", line("bfs.trace", "mut"), line(e.trace(true)...))
+		}
 		out.b.Add(tag+" base-tree", line("os.tree", modelBase), line(e.rc.Dump(e.baseSub)...))
 		if c.Layering != "nested" {
 			out.b.Add(tag+" backup-tree", line("os.tree", modelBak), line(e.rc.Dump(e.bakSub)...))
@@ -819,6 +863,7 @@ type HistGen struct {
 	Force      bool
 	ReadOnly   bool
 	Wild       bool // unrestricted: relative names, any link topology
+	Meta       bool // metadata interplay: chown/chmod/chtimes/write on one file, often back to original values
 	NoRollback bool // C03: the twin tree is not rolled back
 	Ext        bool // C13: external modifications interleaved
 }
@@ -869,7 +914,10 @@ func genHistCase(r *RNG, g HistGen, umask int) *HistCase {
 	if g.Ext {
 		c.Tree = append(c.Tree, Entry{Path: "/zzkeep", Kind: "file", Mode: 0o644, MTime: oldBase + 77, Data: "keep-0"})
 	}
-	og := &OpGen{Mutating: allMutators, ReadOnly: g.ReadOnly, Unclean: true, Relative: g.Wild}
+	og := &OpGen{Mutating: allMutators, ReadOnly: g.ReadOnly, Unclean: true, Relative: g.Wild, Orig: map[string]Entry{}}
+	for _, e := range c.Tree {
+		og.Orig[e.Path] = e
+	}
 	var paths []string
 	for _, e := range c.Tree {
 		if !strings.Contains(e.Path, "zz") {
@@ -878,6 +926,28 @@ func genHistCase(r *RNG, g HistGen, umask int) *HistCase {
 	}
 	if g.Layering == "nested" {
 		paths = append(paths, c.Loc, c.Loc+"/x", path.Dir(c.Loc))
+	}
+	if g.Meta {
+		og.Mutating = []string{"chmod", "chown", "lchown", "chtimes", "write", "creat", "chmod", "chown"}
+		var files []string
+		for _, e := range c.Tree {
+			if e.Kind == "file" && (e.Mode&0o7000 != 0 || e.UID != 0) {
+				files = append(files, e.Path)
+			}
+		}
+		if len(files) == 0 {
+			p := "/" + r.Pick(namePool) + "z"
+			c.Tree = append(c.Tree, Entry{Path: p, Kind: "file", Mode: []uint32{0o4755, 0o2755, 0o6711}[r.Intn(3)], UID: 1000, GID: 1000, MTime: oldTime(r), Data: "meta"})
+			og.Orig[p] = c.Tree[len(c.Tree)-1]
+			paths = append(paths, p)
+			files = append(files, p)
+		}
+		og.Focus = files[r.Intn(len(files))]
+	} else if len(c.Tree) > 0 && r.Chance(1, 3) {
+		og.Focus = c.Tree[r.Intn(len(c.Tree))].Path
+		if strings.Contains(og.Focus, "zz") {
+			og.Focus = ""
+		}
 	}
 	tx := g.Rollbacks
 	if tx == 0 {
@@ -947,6 +1017,10 @@ func histGenFor(prop string, r *RNG) HistGen {
 	}
 	if prop == "C01" && r.Chance(1, 5) {
 		g.Layering = "nested"
+	}
+	if (prop == "C01" || prop == "C02" || prop == "C12" || prop == "C07") && r.Chance(1, 5) {
+		g.Meta = true
+		g.Wild = false
 	}
 	return g
 }
